@@ -961,9 +961,20 @@ def install(m):
     # ------------------------------------------------------------------ JSON (sonic / encoding/json): uninterpreted
     def json_marshal(m, alt, fr, ins, args, work):
         # uninterpreted text carrying the marshalled value: a one-element byte slice whose element is the payload
-        payload = Opaque(("json", args[0]))
+        payload = Opaque(("json", json_copy(m, alt, args[0])))   # the text fixes the contents at Marshal time
         obj = m.new_obj(alt, (payload,), disc=1)
         return (Slice(obj, (), 0, 1, 1), None)
+
+    def json_copy(m, alt, v):
+        # encoding = snapshot, decoding = fresh containers: a map / slice value is copied (one level; nested containers stay shared)
+        if type(v) is Iface and not v.t.startswith("$"):
+            x = v.v
+            if type(x) is MapRef:
+                return Iface(v.t, MapRef(m.new_obj(alt, m.hget(alt, x.obj), disc="json")))
+            if type(x) is Slice and x.obj is not None and type(x.len) is int and type(x.off) is int:
+                elems = tuple(nav(m.hget(alt, x.obj), x.path)[x.off:x.off + x.len])
+                return Iface(v.t, Slice(m.new_obj(alt, elems, disc=("json", x.len)), (), 0, x.len, x.len))
+        return v
 
     def json_payload(m, alt, src):
         if type(src) is Opaque:
@@ -984,7 +995,7 @@ def install(m):
                 td = m.T(dst.t)
                 if td.get("kind") == "pointer":
                     if td.get("elem") == v.t:
-                        m.store(alt, dst.v, v.v)
+                        m.store(alt, dst.v, json_copy(m, alt, v).v)
                     else:
                         tv = m.T(v.t)
                         if tv.get("kind") == "pointer" and tv.get("elem") == td.get("elem") and type(v.v) is Ptr:
